@@ -18,7 +18,7 @@ DESIGN_REF = "DESIGN.md section 7 (C17)"
 RULE = (
     "Exhaustive: every ordered rooted tree with 1..6 (quick) / 1..7 (thorough) nodes; for all node pairs: LCA == first common node of the two "
     "root paths, is_ancestor_of, is_strict_ancestor_of, is_comparable, distance; level for every node; for all triples: LCA of three == deepest "
-    "common ancestor; a second query structure built for each subtree below the root (same node objects) answers for that subtree and leaves the first one intact.  Range-minimum: all arrays over {0,1,2} of length 1..8 / 1..9, all (start, stop) with 0 <= start, stop <= len (empty ranges "
+    "common ancestor; a second query structure built for each subtree below the root (same node objects) answers for that subtree and leaves the first one intact; after a prune-and-regraft edit of the tree in place (all single moves up to 5 nodes) a structure built afterwards for the same root describes the new shape.  Range-minimum: all arrays over {0,1,2} of length 1..8 / 1..9, all (start, stop) with 0 <= start, stop <= len (empty ranges "
     "give None).  Random: trees up to 40 nodes with random arities (queries on 30 drawn tuples of 1-4 nodes), arrays up to 60 elements.  "
     "Non-trivial: tree with >=2 internal nodes / array of length >=2; distinct by SHA-1 of the shape/array."
 )
@@ -192,6 +192,38 @@ def check(case):
         for a in members[:3]:
             if lca.level(nodes[a]) != len(chains[a]) - 1 or lca(nodes[a], nodes[0]) is not nodes[0]:
                 raise Violation("lca.first-instance-disturbed", observed=lca.level(nodes[a]), expected=len(chains[a]) - 1)
+    # the tree edited in place after a structure was built for it: a structure built afterwards for the
+    # same root object must describe the new shape (all single prune-and-regraft moves on small trees,
+    # one drawn move otherwise)
+    moves = [(v, p) for v in range(1, n) for p in range(n) if p != parent[v] and v not in chains[p]]
+    if not case.get("_exh") or n > 5:
+        moves = moves[: 1 if not case.get("_exh") else 6]
+    for v, p in moves:
+        nodes2, parent2 = _build(case)
+        LowestCommonAncestor(nodes2[0])  # a structure for the original shape exists first
+        nodes2[v].detach()
+        nodes2[p].add_child(nodes2[v])
+        parent2 = dict(parent2)
+        parent2[v] = p
+        lca2 = LowestCommonAncestor(nodes2[0])
+
+        def chain2(i):
+            out = [i]
+            while parent2[out[-1]] is not None:
+                out.append(parent2[out[-1]])
+            return out
+
+        ch2 = [chain2(i) for i in range(n)]
+        for a in range(n):
+            if lca2.level(nodes2[a]) != len(ch2[a]) - 1:
+                raise Violation("lca.rebuilt-after-edit.level", observed=lca2.level(nodes2[a]), expected=len(ch2[a]) - 1,
+                                extra={"moved": v, "under": p})
+            for b in range(n):
+                exp = next(x for x in ch2[a] if x in ch2[b])
+                if lca2(nodes2[a], nodes2[b]) is not nodes2[exp]:
+                    raise Violation("lca.rebuilt-after-edit.pair", observed="other node", expected=exp,
+                                    extra={"a": a, "b": b, "moved": v, "under": p})
+                evals += 1
     internal = sum(1 for i in range(n) if any(parent[j] == i for j in range(n)))
     return Result(internal >= 2, [f"nodes={min(n, 10)}{'+' if n >= 10 else ''}", "tree"], evals=max(1, evals))
 
